@@ -171,6 +171,17 @@ CHECKS = {
              "before/after; archives whose members are all benign must be extracted with exact contents.",
         design_ref="DESIGN.md section 5 C16",
         note="Unix only; no symlinks in the output directory; names up to 2 (quick) / 3 (thorough) parts."),
+    "C17": dict(
+        technique="TLA+ Cli model: pipelines create->(convert|repair)* x observers x key modes enumerated by TLC with the expected "
+                  "outcome (ArchiveMap preserved, fails iff bad key situation); every behaviour executed with the real mlar binary",
+        text="TLC enumerates every pipeline over the four layerings (re-encrypting to a different key), every observing command "
+             "(list, -v, -vv, cat, both extract forms, to-tar, convert, repair, info) and every key situation (right, wrong, "
+             "missing, superfluous); the real binary runs each on a generated file tree (empty, 1 byte, 128 KiB+-1, 4 MiB+-1, "
+             "nested, unicode, spaces) and listings, sizes, SHA-256, bytes, tar contents, exit status and absence of output "
+             "on failure are compared with the model.",
+        design_ref="DESIGN.md section 5 C17",
+        note="One seeded file tree per run; `info` is not constrained when the key situation is wrong (it is not in the "
+             "statement's command list); stderr wording not compared."),
     "C19": dict(
         technique="TLA+ KeyDerive term algebra (TLC: composition law, determinism) enumerating every (seed, path list, split); "
                   "each term computed by the real mlar binary and by an independent implementation of the documented algorithm",
